@@ -8,7 +8,7 @@ server); a reference model of both connection-ID sets judges the decrypted wire.
 PROPERTY = "C18"
 LEVEL = "exploration"
 RULE = (
-    "one evaluation = one history against a connected SUT (client or server, peer active_connection_id_limit in {2,3,4,8}): "
+    "one evaluation = one history against a connected SUT (client or server, peer active_connection_id_limit in {2,3,4,8,16}): "
     "NEW_CONNECTION_ID frames with sequence numbers from a small range (duplicates and reordering are frequent), retire_prior_to in any "
     "relation to earlier values, RETIRE_CONNECTION_ID for issued / already-retired / current IDs, the peer switching the DCID it uses among the "
     "IDs the SUT issued, local change_connection_id() calls, acknowledgements withheld so that the SUT's NEW_/RETIRE_ frames are lost and must "
@@ -180,7 +180,16 @@ def run_history(ctx, case, check=True):
                 rpt = {"0": 0, "seq": seq, "seq-1": max(0, seq - 1), "seq-2": max(0, seq - 2), "cur": min(seq, cur), "cur+1": min(seq, cur + 1)}[how]
                 cid = m.peer_issued.get(seq) or bytes([0xC0 + seq % 16, seq]) + bytes(6)
                 frame = {"name": "new_connection_id", "seq": seq, "retire_prior_to": rpt, "cid": cid, "reset_token": bytes([seq]) * 16}
+                active_before = {x for x in m.accepted if x >= m.rpt}
+                active_after = {x for x in active_before | {seq} if x >= max(m.rpt, rpt)}
                 sut_call("receive_datagram", tk.send_frames, [frame])
+                ev = tk.sut._close_event
+                if check and ev is not None and ev.error_code == 0x9 and rpt <= seq and len(active_after) <= 8:
+                    ctx.violation(
+                        "peer-within-connection-id-limit-accused",
+                        "NEW_CONNECTION_ID(seq=%d, retire_prior_to=%d) leaves %d active peer-issued IDs %s (the SUT advertised a limit of 8; before the frame: %s, retire_prior_to %d) but the SUT (%s) closed with CONNECTION_ID_LIMIT_ERROR (%s)" % (seq, rpt, len(active_after), sorted(active_after), sorted(active_before), m.rpt, role, ev.reason_phrase),
+                        case,
+                    )
                 if not dead[0] and not tk.sut._close_pending:
                     if seq >= max(m.rpt, rpt) and seq not in m.peer_issued:
                         m.peer_issued[seq] = cid
@@ -375,7 +384,7 @@ def histories(ctx, examples, shard, check=True):
     from hypothesis import strategies as st
     from vlib.harness import run_hypothesis
 
-    strat = st.fixed_dictionaries({"kind": st.just("cid"), "role": st.sampled_from(["server", "client"]), "limit": st.sampled_from([2, 3, 4, 8, 8]), "ops": ops_strategy()})
+    strat = st.fixed_dictionaries({"kind": st.just("cid"), "role": st.sampled_from(["server", "client"]), "limit": st.sampled_from([2, 3, 4, 8, 8, 16]), "ops": ops_strategy()})
 
     def body(ctx, case):
         run_history(ctx, case, check=check)
